@@ -579,18 +579,38 @@ class Attack:
         # (the payload is the JSON text that ends the frame; a namespace may
         # itself contain '[': every '[' is tried as its start)
         self.ctx.count('derivability_checks')
+
+        def fits(i):
+            try:
+                data = json.loads(frame[i:])
+            except ValueError:
+                return False
+            return isinstance(data, list) and bool(data) and \
+                data[0] == e[3] and R.deep_eq(data[1:], e[5])
+        # a namespace ends at the first ',' (it cannot contain one); the
+        # payload follows the optional id
+        j = frame.find(',')
+        if j > 0 and '/' in frame[:j]:
+            k = j + 1
+            while k < len(frame) and frame[k].isdigit():
+                k += 1
+            if fits(k):
+                return True
         i = frame.find('[')
         tried = 0
         while i >= 0 and tried < 200:
             tried += 1
-            try:
-                data = json.loads(frame[i:])
-            except ValueError:
-                data = None
-            if isinstance(data, list) and data and data[0] == e[3] and \
-                    R.deep_eq(data[1:], e[5]):
+            if fits(i):
                 return True
             i = frame.find('[', i + 1)
+        # (a namespace of hundreds of '[': from the end of the frame too)
+        i = frame.rfind('[')
+        tried = 0
+        while i >= 0 and tried < 300:
+            tried += 1
+            if fits(i):
+                return True
+            i = frame.rfind('[', 0, i)
         return False
 
     # ---------------------------------------------------------- bystanders
